@@ -397,6 +397,11 @@ def check_case(case, ctx):
                     match = x
                     break
             kwargs = {"tag": tag} if issubclass(typ, Recorder) and tag < 3 else {}
+            detached = bool(kwargs) and tag == 2 and idx % 2 == 0
+            if detached:
+                # the documented **kwargs reach the constructor: a new observer
+                # asked for with subscribe=False stays unsubscribed
+                kwargs["subscribe"] = False
             singleton_clash = match is None and not issubclass(typ, Recorder) and any(
                 isinstance(x, typ) for x in expected_subs
             )
@@ -426,7 +431,8 @@ def check_case(case, ctx):
                         "create-or-get-new",
                         f"{where}: expected a new {typ.__name__}",
                     )
-                    expected_subs.append(got)
+                    if not detached:
+                        expected_subs.append(got)
                     if isinstance(got, Recorder):
                         created.append(got)
                         intervals[id(got)] = []
